@@ -215,4 +215,11 @@ Definition g_tr (ics : bool) (kd : akind) (es : list graw) (nn mm : nat) (p m pb
 Definition g_inv (es : list graw) (nn mm : nat) (B : list (list K)) : bool := cert (gmodel_net es) nn mm B.
 (* the certificate of the network with the voltage sources across (p, m) removed (transfer) *)
 Definition g_inv_rm (es : list graw) (p m : Z) (nn mm : nat) (B : list (list K)) : bool := cert (m_remove_vs p m (gmodel_net es)) nn mm B.
+(* one-port trees over any executable field (ac one-ports: leaves taken at s = j omega over LT.QcI.QcIF) *)
+Definition g_th_fst (t : tree K) (V : K) : bool := match th t with Some r => keqb (fst r) V | None => false end.
+Definition g_th_snd (t : tree K) (Zt : K) : bool := match th t with Some r => keqb (snd r) Zt | None => false end.
+Definition g_no_fst (t : tree K) (I : K) : bool := match no t with Some r => keqb (fst r) I | None => false end.
+Definition g_no_snd (t : tree K) (Y : K) : bool := match no t with Some r => keqb (snd r) Y | None => false end.
+Definition g_has_th (t : tree K) : bool := match th t with Some _ => true | None => false end.
+Definition g_has_no (t : tree K) : bool := match no t with Some _ => true | None => false end.
 End Generic.
